@@ -56,6 +56,25 @@ CURATED = [
 ]
 
 
+def family_bound_propagation():
+    """row bound propagation with explanation (lra_constraint.cpp): s = c1*x + c2*y with an undecided assertion on s; bounds on x and y are
+    decided at two different levels (both orders) so that the assertion on s becomes implied (or refuted) and must be explained by BOTH bounds"""
+    out = []
+    for c1 in (1, -1):
+        for c2 in (1, -1):
+            for lower in (True, False):
+                # to bound s from below we need lower bounds of positive-coefficient variables and upper bounds of negative ones
+                bx = (3 if lower else 1, 1) if (c1 > 0) == lower else (1 if lower else 3, 1)   # (rel code, constant): 3 is >=, 1 is <=
+                by = (3 if lower else 1, 2) if (c2 > 0) == lower else (1 if lower else 3, 2)
+                implied = c1 * bx[1] + c2 * by[1]
+                for delta in (0, -1 if lower else 1):
+                    rs = (3 if lower else 1, c1, c2, implied + delta, 1)       # the assertion on s that becomes true
+                    rx = (bx[0], 1, 0, bx[1], 1); ry = (by[0], 0, 1, by[1], 1)
+                    out.append(([rs, rx, ry], [(A, 1, 1), (A, 2, 1), (POP, 0, 0), (POP, 0, 0), (A, 2, 1), (A, 0, 0)]))
+                    out.append(([rs, rx, ry], [(A, 2, 1), (A, 1, 1), (POP, 0, 0), (POP, 0, 0), (CHK, 0, 0)]))
+    return out
+
+
 def sample(rng, n, maxr, maxh):
     out = []
     for _ in range(n):
@@ -90,8 +109,10 @@ def jobs(tier):
     seed = int(os.environ.get('VERIF_SEED', '0') or 0)
     rng = random.Random(2468 + seed)
     scs = list(CURATED)
+    fb = family_bound_propagation()
+    scs += fb[::2] if tier == 'quick' else fb
     if tier == 'quick':
-        scs += sample(rng, 50, 3, 4)
+        scs += sample(rng, 40, 3, 4)
         k = 1
     else:
         scs += sample(rng, 500, 4, 6)
